@@ -288,7 +288,7 @@ var skipInDigest = map[string]bool{
 	// scratch
 	"Response.Header.header.bufK": true, "Response.Header.header.bufV": true, "Request.Header.header.bufK": true, "Request.Header.header.bufV": true,
 	"Request.postArgs.buf": true, "Request.uri.queryArgs.buf": true, "Request.uri.fullURI": true, "Request.uri.requestURI": true,
-	"Response.w.r": true, "Request.w.r": true, "timeoutCh": true, "timeoutTimer": true, "timeoutResponse": true,
+	"Response.w.r": true, "Request.w.r": true, "timeoutCh": true, "timeoutTimer": true, "timeoutResponse": true, "Request.bodyStreamUnread": true,
 	// the connection
 	"c": true, "remoteAddr": true, "connID": true, "connRequestNum": true, "connTime": true, "time": true,
 	"fbr.c": true, "fbr.ch": true, "fbr.byteRead": true,
@@ -543,6 +543,23 @@ func wire(q reqD, idx int) []byte {
 	b.WriteString("\r\n")
 	b.Write(body)
 	return b.Bytes()
+}
+
+// hasStream: with StreamRequestBody the handler gets a requestStream for this request
+func hasStream(q reqD) bool {
+	if q.BadHead {
+		return false
+	}
+	if q.Kind == "multipart" {
+		// a multipart body is pre-parsed (no stream) unless it has a Content-Encoding
+		for _, h := range q.Headers {
+			if strings.HasPrefix(h, "Content-Encoding:") {
+				return true
+			}
+		}
+		return false
+	}
+	return q.Kind == "chunked" || len(q.Body)+q.BodyN > 0 || q.Method == "POST" || q.Method == "PUT"
 }
 
 func bodyLen(q reqD) int {
@@ -815,7 +832,7 @@ func scfgCoq(d desc) string {
 
 func lreqCoq(d desc, q reqD) string {
 	act := map[string]string{"": "HNone", "close": "HConnClose", "timeout": "HTimeout", "hijack": "HHijack"}[q.Act]
-	return hlib.App("mkLreq", hlib.Bool(!q.BadHead), hlib.Z(int64(q.RT)), hlib.Z(int64(q.WT)), hlib.Z(int64(q.Max)), hlib.Z(int64(bodyLen(q))), hlib.Bool(q.Close),
+	return hlib.App("mkLreq", hlib.Bool(!q.BadHead), hlib.Z(int64(q.RT)), hlib.Z(int64(q.WT)), hlib.Z(int64(q.Max)), hlib.Z(int64(bodyLen(q))), hlib.Bool(hasStream(q)), hlib.Bool(q.Close),
 		hlib.Bool(q.Expect), hlib.Z(int64(q.ExpSt)), hlib.Bool(q.ContOK), act)
 }
 
@@ -951,8 +968,7 @@ func corpus() []desc {
 	}
 	// the scribble changes Content-Length of a streamed request
 	d := desc{Op: "hist", Stream: true, Scribble: true}
-	fr := post
-	fr.Framing = true
+	fr := reqD{Method: "POST", URI: "/p", Body: "rawbody", BodyN: 10, Framing: true}
 	d.Conns = [][]reqD{{fr, get, post}}
 	c = append(c, d)
 	return c
